@@ -35,7 +35,7 @@ RULE = ("texts: (a) every ordered pair of textual binary operators of the engine
         "Inserted symbols include word-shaped ones over the whole \\w alphabet (underscore, digits, mixed case, non-ASCII "
         "letters) in all four roles; every generated text remembers its pieces and the real lexer must turn every "
         "table symbol among them into its operator token. Factory histories: create() calls interleaved with "
-        "insert_operator calls on ONE factory object (fixed + 30 %% of the random sequences); every engine created on "
+        "insert_operator calls on ONE factory object (fixed + 30 % of the random sequences); every engine created on "
         "the way is checked, after the whole history ran, against the table of its creation time. "
         "non-trivial = the text holds >= 2 operator tokens (binary/prefix/suffix/index) outside brackets of each "
         "other, i.e. precedence or associativity decides something; distinct = distinct (operator list, token list)")
@@ -939,22 +939,50 @@ def oracle_one(eng, text, toks, obs):
     return None
 
 
+_pending = []
+
+
 def flush(run, eng, cases, meta):
-    """evaluate the queued cases of one engine inside Coq; classify disagreements"""
-    if not cases:
+    """queue the cases of one engine; batches of engines are evaluated inside Coq together (one header with
+    every engine's operator list, shards run in parallel)"""
+    if cases:
+        _pending.append((eng, list(cases), [str(m) for m in meta]))
+    del cases[:], meta[:]
+    if len(_pending) >= 16 or sum(len(c) for _, c, _ in _pending) >= 6000:
+        flush_all(run)
+
+
+def flush_all(run):
+    """evaluate everything queued inside Coq; classify disagreements"""
+    if not _pending:
         return
-    symdefs = {}
-    terms = [case_term(symdefs, toks, obs) for toks, obs in cases]
-    bad = run.coq_mismatches(header_for(eng.ops, symdefs), "case", ok_fn(eng), terms, shard=400)
-    for i in bad[:20]:
-        toks, obs = cases[i]
-        v = oracle_one(eng, meta[i], toks, obs)
+    batch = list(_pending)
+    del _pending[:]
+    symdefs, terms, index = {}, [], []
+    for k, (eng, cases, meta) in enumerate(batch):
+        for j, (toks, obs) in enumerate(cases):
+            terms.append("(%s, the_built_%d, %s)" % (gal.boolean(eng.delegates), k, case_term(symdefs, toks, obs)))
+            index.append((k, j))
+    lines = [HEADER, "From Coq Require Import List ZArith.", "Import ListNotations."]
+    lines += ["Definition %s : list Z := %s." % (v, gal.s(k)) for k, v in symdefs.items()]
+    for k, (eng, _, _) in enumerate(batch):
+        lines.append("Definition the_built_%d := build_table %s." % (k, gen_optables.oplist_term(eng.ops)))
+    bad = run.coq_mismatches("\n".join(lines), "bool * option built * case",
+                             "(fun x => case_ok_with (fst (fst x)) (snd (fst x)) (snd x))", terms, shard=400)
+    per_engine = {}
+    for i in bad:
+        k, j = index[i]
+        per_engine[k] = per_engine.get(k, 0) + 1
+        if per_engine[k] > 20:
+            continue
+        eng, cases, meta = batch[k]
+        toks, obs = cases[j]
+        v = oracle_one(eng, meta[j], toks, obs)
         if v:
             run.fail("violation", v[0], v[1])
         else:
             run.fail("mismatch", "model parse and real parse disagree, yet the real tree is the precedence-correct one",
-                     {"engine": eng.spec(), "text": meta[i], "tokens": [repr(t) for t in toks], "observed": obs})
-    del cases[:], meta[:]
+                     {"engine": eng.spec(), "text": meta[j], "tokens": [repr(t) for t in toks], "observed": obs})
 
 
 def check_tables(run, engs):
@@ -1178,12 +1206,15 @@ def correspondence(run):
             run.fail("violation", "factory.create() fails although _build_operator_table accepts the operator list",
                      {"engine": e.spec(), "error": e.create_error, "ops": e.ops})
     check_tables(run, engs)
+    corpus_engs = {}
     for c in load_corpus():
-        e = eng_from_spec(c["engine"])
-        if e.engine is None:
-            continue
-        cases, meta = [], []
-        check_text(run, e, c["text"], cases, meta, "corpus")
+        key = json.dumps(c["engine"], sort_keys=True)
+        if key not in corpus_engs:
+            corpus_engs[key] = (eng_from_spec(c["engine"]), [], [])
+        e, cases, meta = corpus_engs[key]
+        if e.engine is not None:
+            check_text(run, e, c["text"], cases, meta, "corpus")
+    for e, cases, meta in corpus_engs.values():
         flush(run, e, cases, meta)
     for e in engs:
         for v in e.views:
@@ -1199,6 +1230,7 @@ def correspondence(run):
             if obs is not None and k % 997 == 0:
                 run.sample({"engine": e.spec(), "text": text, "tree": obs})
         flush(run, e, cases, meta)
+    flush_all(run)
     run.note("engines: %s; %d built by insert_operator sequences (%d of them with mixed groups)"
              % (", ".join(BASE_KINDS), len(engs) - len(BASE_KINDS), sum(1 for e in engs if getattr(e, "mixed", False))))
     run.note("%d engines were created part-way through a history on one factory object (create / insert_operator / "
